@@ -46,6 +46,7 @@ type Obs struct {
 	Sample     string   `json:"sample,omitempty"`
 	Notes      []string `json:"notes,omitempty"`
 	Key        string   `json:"key,omitempty"` // identity of the case for distinct counting (optional)
+	Data       []string `json:"data,omitempty"` // payload for the orchestrator (e.g. recorded trace lines)
 }
 
 type Handler func(c json.RawMessage) *Obs
